@@ -149,6 +149,9 @@ Proof.
   rewrite map_combine_seq, mapi_from_app. cbn [mapi_from Nat.add]. rewrite P1, P2, P3. reflexivity.
 Qed.
 
+Lemma select_tok_wild : forall i w, map (select_tok i) (wild_toks w) = wild_toks w.
+Proof. intros i [| |]; reflexivity. Qed.
+
 (* selecting alternative i of the key and printing = printing and selecting textually *)
 Theorem print_select_commutes : forall o x pre a0 a1 rest post w i,
   step_eqb a0 a1 = false -> (i < length (a0 :: a1 :: rest))%nat ->
@@ -159,17 +162,16 @@ Proof.
   cbn [select_key print_key_path]. rewrite fmt_paths_tuple by exact Hne.
   set (alts := a0 :: a1 :: rest) in *.
   replace (nth i (map (fun a => pre ++ a :: post) alts) []) with (pre ++ nth i alts dummy_step :: post).
-  - rewrite !map_app. cbn [map select_tok]. rewrite !map_map. cbn [select_tok].
+  - rewrite !map_app. cbn [map select_tok]. rewrite !map_map. cbn [select_tok]. rewrite (select_tok_wild i w).
     rewrite <- !app_assoc. reflexivity.
   - symmetry. rewrite (nth_indep _ [] (pre ++ dummy_step :: post)) by (rewrite map_length; exact Hi).
     apply (map_nth (fun a => pre ++ a :: post)).
 Qed.
 
-(* FULL STATEMENT: the same for every multipath key the parser can produce.  It is FALSE for
-   the code as it is: fmt_derivation_paths compares only the first two paths, so the tuple
-   <0;0;1> is printed as /0 and the multipath structure is lost in the text. *)
+(* The printer needs distinct alternatives: on a key VALUE whose first two paths coincide
+   (the parser no longer produces one, /repo 109461ce) the tuple <0;0;1> is printed as /0. *)
 Definition dup_key := KMulti None 0 (map (fun a => [a]) [Step false 0; Step false 0; Step false 1]) WUnhardened.
-Theorem print_select_refuted : exists k i,
+Theorem printer_needs_distinct_alternatives : exists k i,
   (i < length (match k with KMulti _ _ ps _ => ps | _ => [] end))%nat /\
   print_key_path (select_key i k) <> map (select_tok i) (print_key_path k).
 Proof. exists dup_key, 2%nat. split; [cbn; lia|]. vm_compute. discriminate. Qed.
